@@ -3,7 +3,7 @@ import glob, json, os, random, subprocess
 import vlib
 from checks import scope_common
 
-LIB = "pub fn a(x) { x }\npub fn c() { 1 }\nfn p() { 2 }\npub type A { A(a: Int) C }\npub const k = 1\n"
+LIB = "pub fn a(x) { x }\npub fn c() { 1 }\nfn p() { 2 }\npub type A { A(a: Int) C }\npub const k = 1\npub type T { W }\n"
 EXTRA_SEEDS = [
     # hand-written multi-feature seeds (fields, labels, types, non-ASCII)
     'import m2.{type A, A}\npub type T { T(x: Int, y: String) U }\npub fn f(t: T) -> Int { case t { T(x: x, ..) -> x U -> 0 } }\nfn g(a: A) { a.a }\nconst s = "é💣"\n',
